@@ -180,6 +180,8 @@ func check(c Case) vk.Verdict {
 	ran := false
 	app.Use(mw)
 	app.All("/", func(ctx fiber.Ctx) error { ran = true; return ctx.SendString("ok") })
+	// the requests of one case arrive on one connection: the server serves them on one recycled request context
+	conn = &vk.Reuse{}
 	v := judge(c, cfg, app, &ran, 0)
 	for i, p := range c.Then {
 		if v.Fail != "" {
@@ -199,6 +201,8 @@ func check(c Case) vk.Verdict {
 	return v
 }
 
+var conn *vk.Reuse
+
 func judge(c Case, cfg cors.Config, app *fiber.App, ranp *bool, nth int) vk.Verdict {
 	var hdr []string
 	if c.HasOrigin {
@@ -213,7 +217,7 @@ func judge(c Case, cfg cors.Config, app *fiber.App, ranp *bool, nth int) vk.Verd
 	if c.ACRPN != "" {
 		hdr = append(hdr, "Access-Control-Request-Private-Network", c.ACRPN)
 	}
-	r := vk.Do(app, c.Method, "/", hdr...)
+	r := conn.Do(app, c.Method, "/", hdr...)
 	get := func(k string) string { return string(r.Response.Header.Peek(k)) }
 	acao, acac, vary := get("Access-Control-Allow-Origin"), get("Access-Control-Allow-Credentials"), get("Vary")
 	allowed, all := c.allowed(), c.allowAll()
@@ -367,7 +371,13 @@ func genRequest(t *rapid.T, c *Case) {
 	scheme := rapid.SampledFrom([]string{base.Scheme, base.Scheme, "http", "https"}).Draw(t, "os")
 	port := rapid.SampledFrom([]string{base.Port, base.Port, "", "8080", "81"}).Draw(t, "op")
 	bh := base.Host
-	host := rapid.SampledFrom([]string{bh, "sub." + bh, "a.b." + bh, "evil" + bh, bh + ".evil.com", "x" + bh, strings.ToUpper(bh), "SUB." + bh, strings.ToLower(bh), "sub." + strings.ToLower(bh), "func.test"}).Draw(t, "oh")
+	same := []byte(bh) // a look-alike of the same length: another first letter
+	if same[0] == 'e' {
+		same[0] = 'f'
+	} else {
+		same[0] = 'e'
+	}
+	host := rapid.SampledFrom([]string{bh, string(same), string(same), "sub." + bh, "a.b." + bh, "evil" + bh, bh + ".evil.com", "x" + bh, strings.ToUpper(bh), "SUB." + bh, strings.ToLower(bh), "sub." + strings.ToLower(bh), "func.test"}).Draw(t, "oh")
 	c.Origin = scheme + "://" + host
 	if port != "" {
 		c.Origin += ":" + port
